@@ -1212,6 +1212,10 @@ def restore(w: World, ag, data: bytes, path: str, case):
     hp = A.hp_config(cfg) if cfg["hp"] != "none" else None
     # "into an existing one": an agent of the same kind that has its own, different, hyperparameters and weights
     other = dict(cfg, lr=cfg["lr"] * 3.0, batch_size=cfg["batch_size"] + 1)
+    if "tau" in cfg:
+        other["tau"] = 0.37  # ... its own soft-update rate and discount: whatever the learner derived from them at construction must follow the checkpoint
+    if "gamma" in cfg:
+        other["gamma"] = 0.77
     if hp is not None:
         # ... and its own mutation ranges for the same hyper-parameters: the checkpoint's configuration has to win
         for n_, p_ in hp.items():
